@@ -622,10 +622,10 @@ fn one(out: &mut CaseRec, real: &mut Real, e: &E, style: u32, rng: &mut gv::rng:
         (Some(pt), Verdict::Err) => {
             // With the row-tail defect a *principal* typing can also be lost only through the
             // row path; keep the fingerprint apart.
-            let fp = if first_err.contains("Expected: forall") || first_err.contains("Found: forall") {
+            let fp = if first_err.contains("forall") {
                 // a record field was generalised to `forall a . …` and then met a monomorphic type
                 known_poly_field = true;
-                "incomplete:poly-record-field".to_string()
+                "incomplete:forall-field-join".to_string()
             } else if w.row_rewrite {
                 "incomplete:rows-path".to_string()
             } else {
@@ -645,7 +645,7 @@ fn one(out: &mut CaseRec, real: &mut Real, e: &E, style: u32, rng: &mut gv::rng:
                 let less_general = refw::instance_of(&b, &a);
                 let fp = if refw::mentions(rt, "HigherRank") {
                     known_poly_field = true;
-                    "higher-rank:poly-record-field".to_string()
+                    "higher-rank:forall-field".to_string()
                 } else if w.row_rewrite && more_general {
                     "unlinked-row-tail:unify_rows".to_string()
                 } else if less_general {
@@ -893,6 +893,13 @@ fn corpus() -> Vec<E> {
         E::Arr(vec![E::Rec(vec![("x".into(), E::Arr(vec![]))]), E::Rec(vec![("x".into(), E::Arr(vec![]))])]),
         lam("x", E::Arr(vec![*v("x"), E::Rec(vec![("x".into(), E::Arr(vec![]))])])),
         lam("x", E::Arr(vec![*v("x"), E::Rec(vec![("x".into(), lam("y", *v("y")))])])),
+        // the same through the two branches of an `if` (lambda fields with an unused parameter)
+        lam("c", E::If(v("c"),
+            Box::new(E::Rec(vec![("z".into(), lam("x", E::Int(0)))])),
+            Box::new(E::Rec(vec![("z".into(), lam("y", E::Int(0)))])))),
+        lam("c", E::If(v("c"),
+            Box::new(E::Tup(vec![lam("x", E::Int(0)), E::Int(1)])),
+            Box::new(E::Tup(vec![lam("y", E::Int(0)), E::Int(2)])))),
         // untypable (infinite type through a row): the real checker overflows its stack
         lam("x", E::Arr(vec![proj(v("x"), "x"), *v("x")])),
     ]
@@ -900,7 +907,7 @@ fn corpus() -> Vec<E> {
 
 fn main() {
     // deep recursion in the checker on nested programs: run with a large stack
-    let h = std::thread::Builder::new().stack_size(1 << 29).spawn(main2).unwrap();
+    let h = std::thread::Builder::new().stack_size(1 << 26).spawn(main2).unwrap();
     h.join().unwrap();
 }
 
@@ -960,7 +967,7 @@ fn main2() {
             cases.push((e, (n_exh % 4) as u32));
         }
     }
-    let n_rand = if args.thorough() { 15000 } else { 4000 };
+    let n_rand = if args.thorough() { 15000 } else { 3000 };
     let mut g = Gen { rng: gv::rng::Rng::new(args.seed, 33) };
     let mut too_large = 0u64;
     for _ in 0..n_rand {
@@ -1009,7 +1016,7 @@ fn main2() {
         let ex = gv::child::run(
             &["--tier", &args.tier, "--seed", &seed_s, "--out", args.out.to_str().unwrap(), "--child", &los, &his],
             b"",
-            std::time::Duration::from_secs(600),
+            std::time::Duration::from_secs(20),
         );
         let (text, clean) = match &ex {
             gv::child::Exit::Ok(s) => (s.clone(), true),
